@@ -85,10 +85,25 @@ def run(tier, seed, replay=None):
                          {"id": 2, "reqs": mutating_session(rng, nodes, 25, "m%db" % i)}]
                 worlds.append({"name": "mixed-%s-%d" % ("rw" if aw else "ro", i), "aw": aw, "nodes": nodes,
                                "views": [{"vk": "dvd", "p": ["a"]}], "conns": conns, "schedule": "rr"})
+            # removal by the wrong command, of links, and of the served root itself (also when it is empty)
+            t = 1500000000
+            nodes = [srv.dnode(["e"], t), srv.dnode(["e", "emptydir"], t + 1), srv.fnode(["e", "file.bin"], 10, cid="rm_f", mtime=t + 2),
+                     srv.dnode(["e", "full"], t + 3), srv.fnode(["e", "full", "x"], 1, cid="rm_x", mtime=t + 4), srv.lnode(["e", "ldir"], ["e", "full"]),
+                     srv.lnode(["e", "lfile"], ["e", "file.bin"]), srv.lnode(["e", "ldang"], ["e", "nothing"]), srv.dnode(["e", "emptydir2"], t + 5)]
+            reqs = []
+            for op, pth in [("DELETE_FILE", "/e/emptydir"), ("RMDIR", "/e/file.bin"), ("RMDIR", "/e/ldir"), ("RMDIR", "/e/lfile"), ("RMDIR", "/e/ldang"),
+                            ("DELETE_FILE", "/e/full"), ("RMDIR", "/e/full"), ("DELETE_FILE", "/e/ldir"), ("DELETE_FILE", "/e/ldang"), ("DELETE_FILE", "/e/lfile"),
+                            ("RMDIR", "/e/emptydir2"), ("DELETE_FILE", "/e/file.bin"), ("RMDIR", "/"), ("DELETE_FILE", "/"), ("RMDIR", ""), ("DELETE_FILE", "/."),
+                            ("RMDIR", "../.."), ("STAT_FILE", "/e/full/x")]:
+                reqs.append({"op": op, "path": pth})
+            worlds.append({"name": "removal-kinds-%s" % ("rw" if aw else "ro"), "aw": aw, "nodes": nodes, "conns": [{"id": 1, "reqs": reqs}], "probe": True})
+            reqs = [{"op": op, "path": pth} for op, pth in [("RMDIR", "/"), ("DELETE_FILE", "/"), ("RMDIR", ""), ("DELETE_FILE", ""), ("RMDIR", "/."), ("RMDIR", "../.."),
+                                                             ("CREATE_FILE", "/"), ("MKDIR", "/"), ("STAT_FILE", "/"), ("MKDIR", "/newdir"), ("STAT_FILE", "/newdir")]]
+            worlds.append({"name": "empty-root-%s" % ("rw" if aw else "ro"), "aw": aw, "nodes": [], "conns": [{"id": 1, "reqs": reqs}], "probe": True})
         srv.run_and_validate(ctx, worlds, rep)
         rep.cov["rule"] = ("writing disabled/enabled x {uploads of every payload size in 1..4 chunks to new and existing targets, read back; "
                            "mixed create/write/delete/mkdir/rmdir sessions on two connections incl. directory, virtual-image, missing-parent "
-                           "and symlink targets}; after every request the harness re-reads the whole tree; distinct_nontrivial = worlds accepted")
+                           "and symlink targets; removal by the wrong command, of links, of the (empty) served root itself}; after every request the harness re-reads the whole tree; distinct_nontrivial = worlds accepted")
         rep.cov["distinct_nontrivial"] = rep.cov["traces_validated_against_impl"]
         rep.cov["samples"] = [worlds[0]["conns"][0]["reqs"][:5]]
     return rep.finish()
